@@ -11,6 +11,10 @@ use std::sync::{Arc, Mutex};
 #[derive(Debug)]
 pub struct Cell {
     pub id: usize,
+    /// a goml `Ref[T]` cell (struct ref_<ty>_x behind a pointer): the only mutable shared
+    /// objects of an emitted program. Other pointers (vtables) are immutable after creation;
+    /// reading them is not a scheduling point and not an event.
+    pub shared: bool,
     pub v: Mutex<V>,
 }
 
@@ -252,6 +256,15 @@ impl Interp {
 
     fn store_field(&self, gid: Gid, target: &V, field: &str, value: V) -> R<bool> {
         if let V::Ptr(cell) = target {
+            if !cell.shared {
+                let mut g = cell.v.lock().unwrap_or_else(|e| e.into_inner());
+                if let V::Struct(_, fields) = &mut *g {
+                    if let Some(slot) = fields.iter_mut().find(|(n, _)| &**n == field) {
+                        slot.1 = value;
+                    }
+                }
+                return Ok(true);
+            }
             self.co.yield_point(gid, Pending::Store(cell.id))?;
             let mut g = cell.v.lock().unwrap_or_else(|e| e.into_inner());
             if let V::Struct(_, fields) = &mut *g {
@@ -505,16 +518,29 @@ impl Interp {
                 match op {
                     GoUnaryOp::AddrOf => {
                         let v = self.expr(gid, expr, fr, depth)?;
-                        let id = self.co.new_cell();
-                        Ok(V::Ptr(Arc::new(Cell { id, v: Mutex::new(v) })))
+                        let shared = matches!(&v, V::Struct(n, f) if n.starts_with("ref_") && n.ends_with("_x") && f.len() == 1);
+                        let id = if shared {
+                            let init = match &v {
+                                V::Struct(_, f) => render(&f[0].1),
+                                _ => "*".to_string(),
+                            };
+                            self.co.new_cell(init)
+                        } else {
+                            usize::MAX
+                        };
+                        Ok(V::Ptr(Arc::new(Cell { id, shared, v: Mutex::new(v) })))
                     }
                     GoUnaryOp::Deref => {
                         let v = self.expr(gid, expr, fr, depth)?;
                         match v {
                             V::Ptr(cell) => {
-                                self.co.yield_point(gid, Pending::Load(cell.id))?;
+                                if cell.shared {
+                                    self.co.yield_point(gid, Pending::Load(cell.id))?;
+                                }
                                 let val = cell.v.lock().unwrap_or_else(|e| e.into_inner()).clone();
-                                self.co.emit(gid, Ev::Load { cell: cell.id, val: render(&val) });
+                                if cell.shared {
+                                    self.co.emit(gid, Ev::Load { cell: cell.id, val: render(&val) });
+                                }
                                 Ok(val)
                             }
                             _ => self.fail(gid, "nil pointer dereference"),
@@ -559,7 +585,9 @@ impl Interp {
                         None => self.unsupported(format!("no field {field}")),
                     },
                     V::Ptr(cell) => {
-                        self.co.yield_point(gid, Pending::Load(cell.id))?;
+                        if cell.shared {
+                            self.co.yield_point(gid, Pending::Load(cell.id))?;
+                        }
                         let g = cell.v.lock().unwrap_or_else(|e| e.into_inner());
                         let val = match &*g {
                             V::Struct(_, fields) => fields.iter().find(|(n, _)| &**n == field.as_str()).map(|(_, v)| v.clone()),
@@ -568,7 +596,9 @@ impl Interp {
                         drop(g);
                         match val {
                             Some(v) => {
-                                self.co.emit(gid, Ev::Load { cell: cell.id, val: render(&v) });
+                                if cell.shared {
+                                    self.co.emit(gid, Ev::Load { cell: cell.id, val: render(&v) });
+                                }
                                 Ok(v)
                             }
                             None => self.unsupported(format!("no field {field} behind pointer")),
